@@ -33,7 +33,9 @@ REST_TOKENS = ['-l', '-v', '-o', 'out.x', '--outfile=zzz', '-h', '--help', '-V',
                'b c', '', '-5', '-i', '--line', '--no', '-lvx', '=', '-', '--outfile', '-u', '-b', '-p', 'x.py', '-z',
                '--unit=3', '-o=1', '-ofoo', '-.5', '--builtin', '-lq',
                # tokens other argparse conventions would treat specially (file expansion, other prefix characters)
-               '@args.txt', '@nofile', '@', '+l', '/v']
+               '@args.txt', '@nofile', '@', '+l', '/v',
+               # the switches of the importable decorator (explicit_profiler): under kernprof they are program arguments
+               '--line-profile', '--line_profile']
 AMBIG_TOKENS = ['--p', '--prof', '--pro=3', '--o', '--out', '--ou', '--=', '--s', '--v', '--r', '--pr', '--outfile=', '--l']
 
 
@@ -61,7 +63,7 @@ def gen_prefix(rnd, n):
             items += rnd.choice(FLAG_ITEMS)
         elif r < 0.9:
             items += gen_value_item(rnd)
-        elif r < 0.95:
+        elif r < 0.92:
             items += ['-lo', rnd.choice(OUTS)]
         else:
             items += ['-s', 'setup.py']
@@ -114,6 +116,16 @@ def gen_cases(tier, rnd):
             r1 = gen_rest(rnd, rnd.choice([1, 2, 3]), False, False, False)
             add('shield_later', prefix, s, r1 + ['--'] + anyrest, 'script', prefix + [s] + r1 + ['--'] + anyrest)
             add('base', prefix, s, [], 'script', prefix + [s])
+    # a setup file that uses the importable decorator (which then looks at sys.argv itself) together with program
+    # arguments spelled like that decorator's own switches, in every class of the quantifier
+    for pre in (['-s', 'setup.py'], ['-l', '-s', 'setup.py'], ['-b', '-s', 'setup.py', '-v']):
+        for sw in (['--line-profile', 'in.txt'], ['a', '--line_profile'], ['--line-profile', '--line_profile', '--line-profile']):
+            add('script', pre, 's.py', sw, 'script', pre + ['s.py'] + sw)
+            add('base', pre, 's.py', [], 'script', pre + ['s.py'])
+            add('module', pre, 'mod1', sw, 'module', pre + ['-m', 'mod1'] + sw)
+            add('base', pre, 'mod1', [], 'module', pre + ['-m', 'mod1'])
+            add('shield', pre, 's.py', sw, 'script', pre + ['s.py', '--'] + sw)
+            add('base', pre, 's.py', [], 'script', pre + ['s.py'])
     # malformed stream: shuffles of everything, exercised for model = implementation only
     for i in range(n // 2):
         toks = gen_prefix(rnd, rnd.choice([0, 1, 2])) + gen_rest(rnd, rnd.choice([0, 1, 2, 3]), True, True, True)
